@@ -110,6 +110,9 @@ class NestedPayload(Packer):
         """
         size, = unpack_from(">H", data, offset)
         offset += 2
+        if offset + size > len(data):
+            msg = f"Nested payload of {size} bytes does not fit the remaining {len(data) - offset} bytes"
+            raise PackError(msg)
         serializable_class = args[0]
         unpacked, _ = self.serializer.unpack_serializable(serializable_class, data[offset:offset + size])
         unpack_list.append(unpacked)
